@@ -81,6 +81,7 @@ func main() {
 			fmt.Println(err)
 			os.Exit(2)
 		}
+		activeProg = p
 		if strings.HasPrefix(*dump, "closure:") {
 			debugClosure(p, newRun(p, "dbg", "quick"), strings.Split(strings.TrimPrefix(*dump, "closure:"), ","))
 			return
@@ -166,6 +167,7 @@ func main() {
 				continue
 			}
 			r := newRun(progs[i], id, *tier)
+			activeProg = progs[i]
 			for _, rule := range spec.Rules {
 				rule := rule
 				r.guarded(rule.ID, func() {
